@@ -118,6 +118,16 @@ def step_check(pm: ProgramModel, ctx: Ctx, mb: ModelBuilder, fn: Any, rule: str)
     if W is None or R is None:
         raise AnalysisError(rule, "cannot identify worklist / result variable of get_core_features",
                             loc(fn.unit.path, fn.node))
+    # the step argument speaks about the state (worklist, result): a loop that carries further state set up before it
+    # (e.g. a set of features already reported) has an invariant this check does not know
+    import ast as _ast
+    pre_locals = {t.id for st_ in pre for n_ in _ast.walk(st_) if isinstance(n_, (_ast.Assign, _ast.AnnAssign, _ast.AugAssign))
+                  for t in (n_.targets if isinstance(n_, _ast.Assign) else [n_.target]) if isinstance(t, _ast.Name)}
+    used = {n_.id for st_ in loop.body for n_ in _ast.walk(st_) if isinstance(n_, _ast.Name)}
+    extra_state = sorted((pre_locals & used) - {W, R, param})
+    if extra_state:
+        raise AnalysisError(rule, f"the loop carries further state {extra_state}: step check not applicable",
+                            loc(fn.unit.path, fn.node))
     mb = ModelBuilder(pm)
     # init ------------------------------------------------------------------------------------
     root = mb.feature("root")
